@@ -194,7 +194,7 @@ def set_orphan_nodes(on):
     _os.environ['VMON_ORPHAN_NODES'] = '1' if on else '0'
 
 
-def hanging_mesh(rng, maxn=4):
+def hanging_mesh(rng, maxn=4, midside=False):
     """A non-conforming mesh on an exact integer lattice: some 2 x 1 rectangles are described by their four corner
     nodes only, while the neighbours above / below still use the node in the middle of the long edge (a hanging node).
     Faces never overlap (coordinates are exact), but they do not form a node-matched coverage."""
@@ -210,7 +210,12 @@ def hanging_mesh(rng, maxn=4):
                 continue
             if i + 1 < ni and not used[j, i + 1] and chance(rng, 0.4):
                 used[j, i] = used[j, i + 1] = True
-                faces.append([node(j, i), node(j, i + 2), node(j + 1, i + 2), node(j + 1, i)])      # middle nodes omitted
+                if midside:
+                    # the conforming variant: the long face lists the two mid-side nodes as vertices of its own, exactly on
+                    # the straight line between their neighbours (integer lattice): a six-sided face, still a rectangle
+                    faces.append([node(j, i), node(j, i + 1), node(j, i + 2), node(j + 1, i + 2), node(j + 1, i + 1), node(j + 1, i)])
+                else:
+                    faces.append([node(j, i), node(j, i + 2), node(j + 1, i + 2), node(j + 1, i)])  # middle nodes omitted
             else:
                 used[j, i] = True
                 faces.append([node(j, i), node(j, i + 1), node(j + 1, i + 1), node(j + 1, i)])
